@@ -21,15 +21,20 @@ import fw
 THEOREMS = [
     'C06Regex.sources_pinned', 'C06Regex.patterns_cover_parser', 'C06Regex.patterns_wellformed',
     'C06Regex.star_atom_backoff', 'C06Regex.star_atom_det', 'C06Regex.kw_match', 'C06Regex.ident_det', 'C06Regex.ws_eol', 'C06Regex.ws_dotplus_eol',
+    'C06Regex.backoff_first', 'C06Regex.searchFrom_first', 'C06Regex.searchFrom_none', 'C06Regex.dotplus_colon', 'C06Regex.exprColon_rx',
+    'C06Regex.return_tail', 'C06Regex.for_tail', 'C06Regex.for_index',
     'C06Regex.kwOnly_regex', 'C06Regex.kwOnly_regex_all', 'C06Regex.comment_regex', 'C06Regex.label_regex', 'C06Regex.else_regex',
-    'C06Regex.assign_regex', 'C06Regex.shape_is_cascade_partial',
+    'C06Regex.assign_regex', 'C06Regex.continuation_regex', 'C06Regex.return_regex', 'C06Regex.kwExprColon_regex', 'C06Regex.if_regex',
+    'C06Regex.elif_regex', 'C06Regex.while_regex', 'C06Regex.for_regex',
+    'C06Regex.shape_is_cascade_partial', 'C06Regex.shape_is_cascade_partial2',
 ]
-LEAN_TARGETS = ['BareProofs.C06RegexPins', 'BareProofs.C06Regex']
+LEAN_TARGETS = ['BareProofs.C06RegexPins', 'BareProofs.C06Regex', 'BareProofs.C06Regex2']
 EXTRA_TARGETS = ['drv_c06x']
 GEN = ['Regex']
 
 # scanners whose "scanner = regex" theorem is proved for all lines without '\n' (the others are only correspondence-checked by rx-scan)
-PROVED = {'endfunction', 'endif', 'endwhile', 'endfor', 'break', 'continue', 'comment', 'label', 'else', 'assign'}
+PROVED = {'endfunction', 'endif', 'endwhile', 'endfor', 'break', 'continue', 'comment', 'continuation', 'label', 'else', 'assign', 'if', 'elif',
+          'while', 'return', 'for'}
 
 SCANNERS = ['assign', 'function', 'endfunction', 'if', 'elif', 'else', 'endif', 'while', 'endwhile', 'for', 'endfor', 'break', 'continue', 'label',
             'jump', 'return', 'include', 'comment', 'continuation', 'shape']
@@ -234,8 +239,8 @@ def _streams(ctx, drv):
                                  'cascade (RxPatterns.rxShape) vs the first pattern the real parse_script matched (recorded through regex proxies); lines '
                                  'without \\n; non-trivial = the pattern matches')
     st_s = ctx.stream('rx-scan', 'the hand-written scanners of Scan / Text, as Scan.shape uses them (indentation stripped, offsets re-based), vs the reading '
-                                 'of the REAL re match per pattern - the correspondence check for the patterns without a proved regex theorem (function, if / elif / while, '
-                                 'for, jump, return, include, continuation, the cascade); run for the proved ones too; non-trivial = the pattern matches')
+                                 'of the REAL re match per pattern - the correspondence check for the patterns without a proved regex theorem (function, jump, '
+                                 'include, the cascade); run for the proved ones too; non-trivial = the pattern matches')
     C10 = None
     try:
         from props import C10 as _C10       # impl_shape: which pattern parse_script matched first (regex proxies)
